@@ -49,7 +49,11 @@ func HarnessCorrupt() {
 	c := zzConfig()
 	path := zz.TempPath("corrupt.db")
 	db := zzMustOpen(path, c, "corrupt")
-	zzSetup(db, zz.Param("setup", 2))
+	if zz.Param("setup", 2) == 5 {
+		zzSetupDeep(db)
+	} else {
+		zzSetup(db, zz.Param("setup", 2))
+	}
 	_ = db.Update(func(tx *Tx) error { return tx.Bucket([]byte("b")).Delete([]byte("k06")) }) // leaves free pages
 	zz.Assert(db.Close() == nil, "corrupt/close")
 	b0 := zz.FileBytes(path)
@@ -94,7 +98,14 @@ func HarnessCorrupt() {
 		return res
 	}
 	typeTargetLeaf := false
-	switch zz.Choose(5) {
+	var classes []int
+	cm := zz.Param("classes", 0x1f)
+	for i := 0; i < 8; i++ {
+		if cm&(1<<i) != 0 {
+			classes = append(classes, i)
+		}
+	}
+	switch classes[zz.Choose(len(classes))] {
 	case 0:
 		zz.Reach("branch-pointer-redirected")
 		var branches []zzTreePage
@@ -150,7 +161,7 @@ func HarnessCorrupt() {
 		zz.Reach("key-byte-changed")
 		var leaves []zzTreePage
 		for _, p := range pages {
-			if !p.branch && p.count > 0 {
+			if p.count > 0 && (!p.branch || zz.Param("branchkeys", 0) == 1) {
 				leaves = append(leaves, p)
 			}
 		}
@@ -158,12 +169,30 @@ func HarnessCorrupt() {
 		ei := zz.Choose(lp.count)
 		e := int(lp.id)*c.pageSize + 16 + ei*16
 		pos, ksize := int(zzU32(b0, e+4)), int(zzU32(b0, e+8))
+		if lp.branch {
+			zz.Reach("branch-key-byte-changed")
+			pos, ksize = int(zzU32(b0, e)), int(zzU32(b0, e+4))
+		}
 		nb := zz.U8("newkeybyte")
 		kb := 0
 		if ksize > 1 {
 			kb = zz.Choose(2) * (ksize - 1) // first or last byte of the key (never beyond it)
 		}
 		zz.PokeFile(path, int64(e+pos+kb), nb)
+	case 5:
+		zz.Reach("overflow-count-changed")
+		// the overflow count of a tree page is changed: a larger one makes the page cover its
+		// neighbours (double reference, reachable-yet-free, or beyond the high-water mark), a smaller
+		// one orphans its tail
+		tp := pages[zz.Choose(len(pages))]
+		off := int64(tp.id)*ps + 12
+		oldov := uint32(zzU32(b0, int(off)))
+		nov := zz.U32("newoverflow")
+		zz.Assume(nov != oldov && nov <= oldov+3)
+		nov = uint32(zz.Concretize64(uint64(nov)))
+		for i := int64(0); i < 4; i++ {
+			zz.PokeFile(path, off+i, byte(nov>>(8*uint(i))))
+		}
 	case 4:
 		zz.Reach("freelist-count-changed")
 		if !im0.hasFL {
@@ -227,6 +256,25 @@ func HarnessCorrupt() {
 	}
 	_ = rdb.Close()
 	zz.Reach("done")
+}
+
+// zzSetupDeep builds bucket "b" as a three-level tree (long keys keep the branch fan-out small).
+func zzSetupDeep(db *DB) {
+	err := db.Update(func(tx *Tx) error {
+		b, err := tx.CreateBucket([]byte("b"))
+		if err != nil {
+			return err
+		}
+		for i := 0; i < 30; i++ {
+			k := zzVal(db.pageSize*18/100, '.')
+			k[0], k[1], k[2] = 'k', byte('0'+i/10), byte('0'+i%10)
+			if err := b.Put(k, zzVal(db.pageSize/10, byte('a'+i%26))); err != nil {
+				return err
+			}
+		}
+		return nil
+	})
+	zz.Assert(err == nil, "setup-deep/update")
 }
 
 func zzCatch(f func()) (panicked bool) {
